@@ -161,6 +161,27 @@ def run_field(shard):
                 q = q1(qatom(6, hybridization=sub or None))
                 for k, m in hm_.items():
                     compare(acc, q, m, 'hybridization query=%s molecule=%d' % (sub, k))
+        # the same fields through the other kinds of query atom (each kind has its own encoder branch)
+        for kname, mk_ in (('any-atom', lambda **kw: qatom(kind='A', **kw)), ('list', lambda **kw: qatom(symbols=('C', 'Fe'), **kw))):
+            for cq in range(-4, 5):
+                for rq in (False, True):
+                    q = q1(mk_(charge=cq, is_radical=rq))
+                    for cm in range(-4, 5):
+                        for rm in (False, True):
+                            compare(acc, q, star('Fe', [], charge=cm, is_radical=rm), 'charge/radical (%s) query=(%d,%s) molecule=(%d,%s)' % (kname, cq, rq, cm, rm))
+            for hq in specs:
+                q = q1(mk_(implicit_hydrogens=hq))
+                for hm in (0, 1, 2, 3, 4, None):
+                    m = star('C', [])
+                    m.atom(1)._implicit_hydrogens = hm
+                    compare(acc, q, m, 'hydrogens (%s) query=%s molecule=%s' % (kname, hq, hm))
+        fe = {1: smiles('C[Fe]C'), 2: smiles('C=[Fe]'), 3: smiles('C#[Fe]')}
+        for kname, mk_ in (('any-atom', lambda **kw: qatom(kind='A', **kw)), ('list', lambda **kw: qatom(symbols=('C', 'Fe'), **kw)), ('any-metal', lambda **kw: qatom(kind='M', **kw))):
+            for r in range(0, 5):
+                for sub in itertools.combinations((1, 2, 3, 4), r):
+                    q = q1(mk_(hybridization=sub or None))
+                    for k, m in list(hm_.items()) + [(10 + k_, m_) for k_, m_ in fe.items()]:
+                        compare(acc, q, m, 'hybridization (%s) query=%s molecule=%d' % (kname, sub, k))
         acc.sample({'field': 'charge x radical, hydrogens, hybridization', 'full product': True})
     elif kind == 'counts':
         # neighbours / heteroatoms: every singleton and pair within 0..14 vs 0..14
@@ -176,6 +197,15 @@ def run_field(shard):
             q = q1(qatom(26, heteroatoms=sp))
             for k, m in enumerate(stars_h):
                 compare(acc, q, m, 'heteroatoms query=%s molecule=%d' % (sp, k))
+            # the other kinds of query atom carry the same field through their own encoder branch
+            for kname, qa in (('any-metal', qatom(kind='M', neighbors=sp)), ('any-atom', qatom(kind='A', neighbors=sp)), ('list', qatom(symbols=('Fe', 'Cu'), neighbors=sp))):
+                q = q1(qa)
+                for k, m in enumerate(stars_n):
+                    compare(acc, q, m, 'neighbors (%s) query=%s molecule=%d' % (kname, sp, k))
+            for kname, qa in (('any-atom', qatom(kind='A', heteroatoms=sp)), ('list', qatom(symbols=('Fe', 'Cu'), heteroatoms=sp))):
+                q = q1(qa)
+                for k, m in enumerate(stars_h):
+                    compare(acc, q, m, 'heteroatoms (%s) query=%s molecule=%d' % (kname, sp, k))
     elif kind == 'rings':
         sizes = list(range(3, 67)) + [70]
         mols = {(s,): ring_mol((s,)) for s in sizes}
